@@ -263,6 +263,7 @@ static void rel_forget_range(size_t lo, size_t hi) {
 static const size_t op_size[4] = {512, 600, 1400, 600};
 static const int op_write[4] = {1, 0, 0, 1};
 #define OP_REL 4
+static void *g_spacer; /* see OP_RESTART */
 #define OP_RESTART (OP_REL + NSLOT) /* second life: destroy the idle allocator (heap must be whole again), create a new one in the same heap */
 #define NOPS (OP_RESTART + 1)
 static int g_lives;
@@ -282,6 +283,7 @@ static void m_reset(void) {
     memset(sl, 0, sizeof(sl));
     g_new_op = 0;
     g_lives = 0;
+    g_spacer = NULL;
     nrel = 0;
     g_sba = aws_small_block_allocator_new(&par, false);
     if (!g_sba) {
@@ -399,6 +401,10 @@ static void m_apply(int op) {
         aws_small_block_allocator_destroy(g_sba);
         g_sba = NULL;
         if (esx_failed) return;
+        if (g_spacer) {
+            aws_mem_release(&par, g_spacer);
+            g_spacer = NULL;
+        }
         if (g_verify) heap_whole("destroy of an idle allocator");
         if (g_new_op) {
             for (size_t a = 0; a + PAGE_HDR <= OH_SIZE; a += PAGE)
@@ -406,6 +412,10 @@ static void m_apply(int op) {
         }
         ++g_lives;
         nrel = 0;
+        /* every second life starts behind a small parent block, so that the new allocator's control block does not land on the
+         * address of the old one (added after a seeded change that memoised pointers into the first allocator's bins in a
+         * function-level static: invisible whenever the next allocator happens to occupy the same memory) */
+        if (g_lives & 1) g_spacer = aws_mem_acquire(&par, 80);
         g_sba = aws_small_block_allocator_new(&par, false);
         if (!g_sba) {
             esx_fail("new-failed", "aws_small_block_allocator_new failed in the second life");
@@ -448,6 +458,7 @@ static void m_apply(int op) {
 }
 static void m_teardown(void) {
     g_new_op = 0;
+    if (esx_failed) g_spacer = NULL;
     g_verify = 1;
     if (!esx_failed) {
         for (int s = 0; s < NSLOT; ++s)
@@ -461,6 +472,10 @@ static void m_teardown(void) {
         aws_small_block_allocator_destroy(g_sba);
         g_sba = NULL;
         if (esx_failed) return;
+        if (g_spacer) {
+            aws_mem_release(&par, g_spacer);
+            g_spacer = NULL;
+        }
         heap_whole("teardown: every block released and the allocator destroyed");
     }
 }
